@@ -80,4 +80,4 @@ package predicate
 //@ lemma predicate-text-splits(id String, anchored Bool, tm Time) using quote-shape quote-no-anchor timefmt-roundtrip: !str_contains(id, "@[") ==> acceptsPredicate(predText(id, anchored, tm)) && unquote(predIDPart(predText(id, anchored, tm))) == id && (predRawAnchor(predText(id, anchored, tm)) == "") == !anchored && (anchored ==> timeparse(RFC3339Nano(), predAnchorPart(predText(id, anchored, tm))) == tm)
 // The same statement without the restriction on the id fails (known finding: an id that contains @[ is
 // split at the wrong place).
-//@ lemma predicate-text-splits-any-id(id String, anchored Bool, tm Time) using quote-shape timefmt-roundtrip: acceptsPredicate(predText(id, anchored, tm)) && unquote(predIDPart(predText(id, anchored, tm))) == id
+//@ lemma predicate-text-splits-any-id(id String, anchored Bool, tm Time) using quote-shape quote-no-anchor timefmt-roundtrip: acceptsPredicate(predText(id, anchored, tm)) && unquote(predIDPart(predText(id, anchored, tm))) == id
